@@ -162,6 +162,7 @@ fn run<K: Kind>(h: &Hist, pool: &[u8], st: &mut Stats, fnv: &mut Fnv, states: &m
                 if prev_kind == 1 && live[i].seen.len() < 4 {
                     st.hit("probe.finalize_with_partial_tail");
                 }
+                st.hit("fault.finalize_at_arbitrary_instant");
                 if let Some(v) = check_all(&live[i], &[*o], fnv) {
                     return Some(Violation { detail: format!("step {step}: {}", v.detail), ..v });
                 }
@@ -187,6 +188,7 @@ fn run<K: Kind>(h: &Hist, pool: &[u8], st: &mut Stats, fnv: &mut Fnv, states: &m
                     let c = Live::<K> { g: live[i].g.clone(), seen: live[i].seen.clone() };
                     live.push(c);
                     st.hit("clones");
+                    st.hit("fault.clone_at_arbitrary_instant");
                 }
             }
             Op::Drop { g } => {
